@@ -40,7 +40,7 @@ type Attempt struct {
 	HandlerMode string // "ok", "yield", "scribble"
 	FailAt      int    // handler returns an error for the k-th delivery of this attempt (-1 never)
 	PanicAt     int    // handler panics at the k-th delivery of this attempt (0 = never, k+1); the caller of Stream recovers (a supervisor that restarts the stream)
-	FailWith    string // which error: "" a plain one; "canceled" / "deadline" wrap the context errors (the consumer's own context, not the stream's); "eof", "badconn", "invalidconn" are the values a connection layer uses
+	FailWith    string // which error: "" a plain one; "canceled" / "deadline" wrap the context errors (the consumer's own context, not the stream's); "eof", "badconn", "invalidconn" are the values a connection layer uses; "temporary" is a timeout in the idiom of package net
 	BlockAt     int    // handler blocks until cancellation at the k-th delivery (-1 never)
 	BlockErr    bool   // the blocked handler returns an error when released
 	Cancel      *Trigger
@@ -62,9 +62,19 @@ func HandlerError(kind string) error {
 		return driver.ErrBadConn
 	case "invalidconn":
 		return mysql.ErrInvalidConn
+	case "temporary":
+		return sinkTimeout{}
 	}
 	return errors.New("scripted handler failure")
 }
+
+// sinkTimeout is an error of the consumer's sink in the idiom of package net
+// (Timeout / Temporary): still a refusal of the transaction.
+type sinkTimeout struct{}
+
+func (sinkTimeout) Error() string   { return "sink: write batch: i/o timeout" }
+func (sinkTimeout) Timeout() bool   { return true }
+func (sinkTimeout) Temporary() bool { return true }
 
 // Scenario is one closed system explored by E1.
 type Scenario struct {
@@ -322,7 +332,8 @@ func body(sc *Scenario, rec *Record) {
 					rec.AliasWithin = "the delivered transaction changed when it was serialised to JSON: " + diff
 				}
 			}
-			if at.HandlerMode == "scribble" && res == nil {
+			if at.HandlerMode == "scribble" {
+				// (also when it refuses the transaction: it worked on it in place first)
 				if why := hx.AliasProbe(tx); why != "" && rec.AliasWithin == "" {
 					rec.AliasWithin = why
 				}
